@@ -120,6 +120,7 @@ ENC_RULE = ("generic reflection harness: 'api' = random VALID API histories (eve
             "with every command; packet-out; port-mod; set-config; multipart requests; Nicira/ONF vendor messages; bundle-add wrapping any message), "
             "'enc'/'prog' = literal values and constructor calls with edge arguments (correspondence only). Non-trivial = the encoder produced bytes.")
 PROPS["C01"] = {
+    "modules": ["C01", "C01b"],
     "families": ["OF"], "ops": "api,apix,enc,prog", "gen_deps": [],
     "rule": ENC_RULE, "trivial_outputs": ["panic", "err"],
     "level_text": "Theorems (model): constructors stamp version 4 / their type code; for flow-mods of every command and content the first four bytes are (version, type, reported size) — the header length equals the size the message reports; C06 relates reported size to bytes. Oracle on implementation bytes for every generated API-built top-level message: version 4, type code of the kind / constructor, header length = len(bytes) = reported size before and after encoding. Theorems for the other top-level kinds are pending (their framing is decided by the oracle + correspondence only).",
@@ -134,9 +135,10 @@ PROPS["C02"] = {
     "assumptions": COMMON_ASSUMPTIONS,
 }
 PROPS["C03"] = {
+    "modules": ["C03", "C03b"],
     "families": ["OF"], "ops": "api,apix,enc,prog", "gen_deps": [],
     "rule": ENC_RULE, "trivial_outputs": ["panic", "err"],
-    "level_text": "Theorems (model): OpenFlow header fields at offsets 0/1/2/4; every fixed field of a flow-mod at the offset OpenFlow 1.3 assigns to it (cookie 8 … out_port 36, out_group 40, flags 44), for every content. Oracle: specification layout tables (Spec.layouts: offset, width per field of every message, action, instruction, bucket, vendor payload; OXM payload = value||mask in the field's width; NAT optional parts by presence bits in OVS order; learn-spec header packing; header words of register fields) applied to the implementation's bytes of every API-built value, element by element along the grammar walk.",
+    "level_text": "Kernel-checked (Props/C03.lean + C03b.lean, 68 theorems): LayoutHolds K v bs := every row of the specification table Spec.layouts for kind K (field name, offset, width) holds of the encoding — proved for all 36 kinds of the table whose rows are true: standard actions, 11 Nicira actions incl. the NAT fixed part, instructions, flow-mod, group-mod, bucket, packet-out, port-mod, set-config, multipart request and bodies, vendor payloads, bundle-add; match-field placement (header word, experimenter id exactly when present, value then mask exactly when HasMask); list order (k-th child intact at start + sum of the sizes before it) for match fields, actions, buckets, instructions, conntrack actions, TLV maps, learn specs; NAT optional parts in presence-bit order exactly when set. Proved counterexamples for the rows that are false: 16-bit port_no of the stats requests (known finding D44), stub kinds InstrMeter / ActionMplsTtl / ActionNwTtl (no constructor). Oracle: specification layout tables (Spec.layouts: offset, width per field of every message, action, instruction, bucket, vendor payload; OXM payload = value||mask in the field's width; NAT optional parts by presence bits in OVS order; learn-spec header packing; header words of register fields) applied to the implementation's bytes of every API-built value, element by element along the grammar walk.",
     "level_note": OF_NOTE + " Known finding D44 (port-stats / queue-stats request port_no is 16 bits wide in the struct).",
     "assumptions": COMMON_ASSUMPTIONS,
 }
@@ -205,7 +207,7 @@ PROPS["C13"] = {
 }
 
 PROPS["C05"] = {
-    "families": ["OF"], "ops": "rtrip,rtparse,rtx,enc,dec", "gen_deps": [],
+    "families": ["OF"], "ops": "rtrip,rtparse,rtw,rtx,enc,dec", "gen_deps": [],
     "rule": "rtrip / rtparse: every API-built value (every kind; valid histories incl. bundle-add wrapping any message) is encoded, the bytes are followed by 8 other bytes inside a larger backing array, decoded by the kind's "
             "own decoder (elements) or by openflow13.Parse (top-level messages), and re-encoded: the re-encoding must equal the encoding and the reported size its length; rtx: the same on literal values (correspondence only); "
             "dec: decoders on captured encodings with truncations / corruptions (correspondence). Non-trivial = the value was encoded.",
